@@ -661,7 +661,10 @@ func (s *Store) ExecValidated(op OpSpec) (class string, hops []string) {
 		accounts = append(accounts, Account(sd))
 	}
 	for i := range ver.Inputs {
-		if err := ver.SignInput(s.S, i, accounts); err != nil {
+		// a replay on another tree may reference an output that was never created there
+		// (ReadUTXOKeys dereferences a missing record): such a transaction cannot be signed
+		var err error
+		if pan, _ := vh.Catch(func() { err = ver.SignInput(s.S, i, accounts) }); pan || err != nil {
 			return "rejected", nil
 		}
 	}
